@@ -24,6 +24,8 @@ pub const CHARS: &[(i64, char)] = &[
     (24, '𝄞'),
     (91, 'i'),
     (52, '\u{307}'), // combining dot above: second codepoint of lower-cased U+0130
+    (43, '\u{212A}'), // Kelvin sign: lower-casing shrinks it from 3 bytes to 1 ('k')
+    (101, 'k'),
 ];
 
 pub fn char_of(code: i64) -> char {
@@ -64,6 +66,14 @@ pub const TV_SET: &str = "https://w3id.org/stam/extensions/stam-textvalidation/"
 pub const TP_SET: &str = "https://w3id.org/stam/extensions/stam-transpose/";
 const RESERVED: &[&str] = &["checksum", "text", "delimiter", "Transposition", "Resegmentation", "1", "1.5", "-7", "yes"];
 
+/// string values that look like IRIs (the Web Annotation export writes them as nodes) with characters that need escaping
+const IRI_TOKENS: &[(&str, &str)] = &[
+    ("iri1", "urn:x:a\\b"),
+    ("iri2", "file:C:\\temp\\notes\\backup.txt"),
+    ("iri3", "http://e.org/\u{1}x\r"),
+    ("iri4", "https://example.org/plain"),
+];
+
 impl IdStyle {
     fn suffix(&self) -> &'static str {
         SUFFIXES[(self.0 as usize) % SUFFIXES.len()]
@@ -77,6 +87,8 @@ impl IdStyle {
             TP_SET.to_string()
         } else if RESERVED.contains(&abs) {
             abs.to_string()
+        } else if let Some((_, c)) = IRI_TOKENS.iter().find(|(a, _)| *a == abs) {
+            c.to_string()
         } else {
             format!("{}{}", abs, self.suffix())
         }
@@ -100,6 +112,8 @@ impl IdStyle {
             "TP".to_string()
         } else if RESERVED.contains(&conc) {
             conc.to_string()
+        } else if let Some((a, _)) = IRI_TOKENS.iter().find(|(_, c)| *c == conc) {
+            a.to_string()
         } else if suf.is_empty() {
             conc.to_string()
         } else if let Some(stripped) = conc.strip_suffix(suf) {
